@@ -62,9 +62,13 @@ def pPropDef (j : Json) : PropDef :=
   { name := gName j "name", ty := gName j "ty", isArr := (getBool j "arr").getD false, ref := gOptName j "ref",
     quals := (getArr j "quals").map pQualUse }
 
+def pMethodDef (j : Json) : MethodDef :=
+  { name := gName j "name", retTy := gName j "ret", quals := (getArr j "quals").map pQualUse,
+    params := (getArr j "params").map pPropDef }
+
 def pClassDef (j : Json) : ClassDef :=
   { name := gName j "name", super := gOptName j "super", quals := (getArr j "quals").map pQualUse,
-    props := (getArr j "props").map pPropDef }
+    props := (getArr j "props").map pPropDef, methods := (getArr j "methods").map pMethodDef }
 
 def pObj (j : Json) : Obj :=
   match getStr j "k" with
@@ -130,7 +134,17 @@ def jPath (p : Path) : Json :=
   Json.mkObj [("cls", jName p.cls), ("ns", jOptName p.ns),
               ("keys", Json.arr (p.keys.map (fun e => Json.arr #[jName e.1, jVal e.2])).toArray)]
 
-def jQualUse (q : QualUse) : Json := Json.mkObj [("name", jName q.name), ("ty", jName q.ty), ("val", jOptName q.val)]
+def jQualUse (q : QualUse) : Json :=
+  Json.mkObj [("name", jName q.name), ("ty", jName q.ty), ("val", jOptName q.val), ("propagated", q.propagated)]
+
+def jParam (p : PropDef) : Json :=
+  Json.mkObj [("name", jName p.name), ("ty", jName p.ty), ("arr", p.isArr), ("ref", jOptName p.ref),
+              ("quals", Json.arr (p.quals.map jQualUse).toArray)]
+
+def jMethodRec (m : MethodRec) : Json :=
+  Json.mkObj [("name", jName m.d.name), ("ret", jName m.d.retTy), ("quals", Json.arr (m.d.quals.map jQualUse).toArray),
+              ("params", Json.arr (m.d.params.map jParam).toArray), ("origin", jName m.origin),
+              ("propagated", m.propagated)]
 
 def jPropRec (p : PropRec) : Json :=
   Json.mkObj [("name", jName p.d.name), ("ty", jName p.d.ty), ("arr", p.d.isArr), ("ref", jOptName p.d.ref),
@@ -139,7 +153,8 @@ def jPropRec (p : PropRec) : Json :=
 
 def jClass (c : ClassRec) : Json :=
   Json.mkObj [("name", jName c.name), ("super", jOptName c.super),
-              ("quals", Json.arr (c.quals.map jQualUse).toArray), ("props", Json.arr (c.props.map jPropRec).toArray)]
+              ("quals", Json.arr (c.quals.map jQualUse).toArray), ("props", Json.arr (c.props.map jPropRec).toArray),
+              ("methods", Json.arr (c.methods.map jMethodRec).toArray)]
 
 def jQualDecl (q : QualDecl) : Json :=
   Json.mkObj [("name", jName q.name), ("ty", jName q.ty), ("scopes", Json.arr (q.scopes.map jName).toArray),
